@@ -230,11 +230,25 @@ func Verif_C06_history() {
 		case 2:
 			writes++
 			val := string([]byte{'r', byte('a' + writes)})
+			// optionally another reader of the key overlaps the write: it runs after Exec was
+			// called and before the database statement takes effect (it may see the old row -
+			// the write is not completed - and caches what it saw)
+			overlap := verifChoose("overlappingReader", 2) == 1
 			_, err := cc.Exec(func(conn sqlx.Conn) (sql.Result, error) {
+				if overlap {
+					var seen string
+					cc.QueryRow(&seen, verifPKKey, byPK)
+				}
 				db.has, db.row = true, val
 				return nil, nil
 			}, verifPKKey, verifIdxKey)
 			verifAssert(err == nil, "Exec(write): succeeds")
+			if overlap {
+				var got string
+				err := cc.QueryRow(&got, verifPKKey, byPK)
+				checkRead(got, err, "QueryRow after a completed write that a reader overlapped")
+				verifReach("write-overlapped")
+			}
 			verifReach("write")
 		case 3:
 			_, err := cc.Exec(func(conn sqlx.Conn) (sql.Result, error) {
